@@ -139,7 +139,8 @@ class C20(Prop):
             "parameters, with a leading / trailing blank, in another case, as the second value, as the first of two values, "
             "inside a comma list, application/json, */*, empty} x {with, without} NIP-11 document x {with, without} default "
             "handler x an optional `Connection: Upgrade` x GET/POST/OPTIONS; 10% direct calls of NIP11.ServeHTTP; 6% of the requests for a document are repeated 150 times while four goroutines "
-            "keep requesting another document from a NIP11 value of their own (the answer must stay the same); 20% random "
+            "keep requesting another document from a NIP11 value of their own, and another such request is served inside every "
+            "Header/WriteHeader call of the response writer (the answer must stay the same); 20% random "
             "documents (every optional block absent / empty / filled, nil elements, kinds as single numbers and pairs incl. "
             "From = To, reversed and negative, ints incl. the int64 extremes, strings with HTML characters, quotes, percent signs (100% free, %20, %s%d%v, %%), "
             "non-ASCII, U+2028) through json.Marshal and json.Unmarshal; 10% kind ranges through Marshal/Unmarshal; 5% "
